@@ -82,6 +82,27 @@ theorem runMStmts_againL {C : Codecs} {T F : String → Prop} (hF : LawfulFmt C 
       obtain ⟨g1, g2⟩ := layout_step C s'.env b (.subs b f ty none none) rfl m' t _ t' bs rfl rfl hP hD
         (by rw [slotBytes_subs C s'.env b f ty none none vs hx, hbs])
       exact ⟨t', by rw [runMStmts, ht1]; exact hr, hag', g1, g2, by rw [hH]; cases b <;> rfl⟩
+    | ifNonZero f b w e =>
+      simp only [MStmt.slotsL, List.nil_append, List.cons_append] at hm; subst hm
+      have hre' : reencodableM r = true := by simpa [reencodableM] using hre
+      have hFt' : ∀ ty ∈ fmtTypesM r, F ty := by simpa [fmtTypesM] using hFt
+      have hlen' : ∀ g ∈ lenFieldsM r, g ∈ fs := by simpa [lenFieldsM] using hlen
+      obtain ⟨x, hx, _⟩ := hfit (.opt b w e f none) (List.mem_cons_self ..)
+      have htx : t.env.get f = some (.n x) := by rw [hag f (hmem (.opt b w e f none) (List.mem_cons_self ..)), hx]
+      have ht1 : runMStmt C andx t (.ifNonZero f [.int b w e f]) = .ok (t.app b (if x = 0 then [] else intBytes w e x)) := by
+        rw [runMStmt]
+        simp only [getN, htx, Outcome.bind_ok]
+        by_cases hx0 : x = 0
+        · subst hx0
+          cases b <;> simp [MState.app]
+        · have hne : (x != 0) = true := by simpa using hx0
+          simp [hne, hx0, runMStmts, runMStmt, getN, htx]
+      obtain ⟨t', hr, hag', hP, hD, hH⟩ := ih m' s1 s' (t.app b (if x = 0 then [] else intBytes w e x)) fs hl' hst.2 hre' hFt' hlen' hrun
+        (fun sl h => hfit sl (List.mem_cons_of_mem _ h)) (fun sl h => hmem sl (List.mem_cons_of_mem _ h))
+        (by cases b <;> exact hag)
+      obtain ⟨g1, g2⟩ := layout_step C s'.env b (.opt b w e f none) rfl m' t _ t' (if x = 0 then [] else intBytes w e x) rfl rfl hP hD
+        (by simp [slotBytes, hx])
+      exact ⟨t', by rw [runMStmts, ht1]; exact hr, hag', g1, g2, by rw [hH]; cases b <;> rfl⟩
     | frag hfrag =>
     cases hfrag <;> simp only [MStmt.slotsL, List.nil_append, List.cons_append] at hm <;> subst hm
     case int b w e f =>
@@ -255,6 +276,7 @@ theorem layoutML_nil_reencodable : ∀ (stmts : List MStmt), layoutML stmts = so
     cases hfragL with
     | forInt b w e f => simp [MStmt.slotsL] at hm
     | forSub b f t => simp [MStmt.slotsL] at hm
+    | ifNonZero f b w e => simp [MStmt.slotsL] at hm
     | frag hfrag =>
     cases hfrag <;> simp only [MStmt.slotsL, List.nil_append, List.cons_append] at hm <;> try cases hm
     · -- setFmt
